@@ -108,8 +108,14 @@ func (iloc *itemLoc) Copy(src *itemLoc) {
 	}
 	// NOTE: This trick only works because of the global lock. No reason to lock
 	// src independently of i.
+	//
+	// Without the lock the item must be fetched before the location: a
+	// concurrent Flush sets the location first and only then may a visit
+	// evict the item, so an item seen missing implies a location seen set.
+	// The other order could copy "no location" and then "no item".
+	item := src.item
 	iloc.loc = src.loc
-	iloc.item = src.item
+	iloc.item = item
 }
 
 const itemLocHdrLength int = 4 + keyPSize + 4 + 4
@@ -228,9 +234,9 @@ func (iloc *itemLoc) read(c *Collection, withValue bool) (icur *Item, err error)
 
 // NumBytes return the number of bytes needed for the collection
 func (iloc *itemLoc) NumBytes(c *Collection) int {
+	i := iloc.Item() // Before the location, see Copy().
 	loc := iloc.Loc()
 	if loc.isEmpty() {
-		i := iloc.Item()
 		if i == nil {
 			return 0
 		}
